@@ -337,6 +337,8 @@ def no_mutation_while_iterating(chk, rule, rels, floor=None):
         for loop in ast.walk(mod.tree):
             if not isinstance(loop, ast.For) or not isinstance(loop.iter, (ast.Name, ast.Attribute, ast.Subscript)):
                 continue
+            if getattr(loop, '_iter_copied', None):
+                continue   # written `for x in list(X)`: a snapshot is iterated
             x = norm(loop.iter)
             n += 1
             bad = []
